@@ -7,6 +7,11 @@ CONSTANTS
   Frames <- BFramesQuick
   MaxFrames = 3
   CrcCounted = TRUE
+  PayFrames = {}
+  PayHeads = {}
+  TwiceLens = {}
+  PassThrough = FALSE
+  LenMod = 0
   Depth = 6
 INVARIANTS Emit DecodeExact WireIsPending
 CHECK_DEADLOCK FALSE
